@@ -12,9 +12,20 @@ from dataclasses import dataclass, field
 from pathlib import Path
 
 VERIF = Path(__file__).resolve().parent.parent
-LEAN = VERIF / "lean"
 REPO = Path(os.environ.get("VERIF_REPO", "/repo"))
+LEAN = VERIF / "lean"
+if str(REPO) != "/repo":
+    # a run against a scratch worktree (seeded-change testing) gets its own copy of the Lean project (sources + build output), so that
+    # the files re-emitted from THAT tree, the rebuilt theorems and the driver binary never mix with runs against /repo or other worktrees
+    LEAN = VERIF / ".work" / ("lean_" + hashlib.sha1(str(REPO).encode()).hexdigest()[:10])
 DRIVER = LEAN / ".lake" / "build" / "bin" / "mzdriver"
+
+
+def prepare_scratch_lean():
+    """called ONCE by run.py at the start of a run against a scratch worktree: fresh copy of the Lean project"""
+    if str(REPO) != "/repo":
+        LEAN.parent.mkdir(parents=True, exist_ok=True)
+        subprocess.run(["rsync", "-a", "--delete", str(VERIF / "lean") + "/", str(LEAN) + "/"], check=True)
 ALLOWED_AXIOMS = {"propext", "Classical.choice", "Quot.sound"}
 # theorem-name-prefix -> extra axioms accepted there (named in DESIGN.md trusted base)
 EXTRA_AXIOMS: dict[str, str] = {
@@ -48,7 +59,7 @@ def translate() -> tuple[bool, str]:
     tr = VERIF / "harness" / "translate.py"
     if not tr.exists():
         return True, "no translator"
-    rc, out, err = sh([sys.executable, str(tr)], cwd=VERIF, timeout=600)
+    rc, out, err = sh([sys.executable, str(tr)], cwd=VERIF, timeout=600, env=dict(os.environ, VERIF_LEAN_DIR=str(LEAN)))
     return rc == 0, out + err
 
 
